@@ -95,6 +95,8 @@ class Report:
     exhaustive: bool = False
     self_tests: list = field(default_factory=list)
     selftest_failures: list = field(default_factory=list)
+    notes: list = field(default_factory=list)          # divergences from the specification OUTSIDE the listed properties
+    x_facts: int = 0                                   # beyond-property facts compared (never a verdict)
 
     def sample(self, obj, cap=4):
         if len(self.samples) < cap:
@@ -106,6 +108,15 @@ class Report:
         self.tlc_runs.append(res.summary())
         for k, v in res.coverage.items():
             self.actions_covered[k] = self.actions_covered.get(k, 0) + v
+
+    def note(self, clause, what, replay):
+        """The specification also predicts behaviour that none of the listed properties states (DESIGN 14.4).  A
+        divergence there is reported as a SPEC-NOTE and recorded in the evidence; it never changes the verdict."""
+        for u in self.notes:
+            if u["clause"] == clause and u["what"] == what:
+                u["count"] += 1
+                return
+        self.notes.append(dict(clause=clause, what=what, count=1, replay=replay))
 
     def violate(self, clause, what, replay):
         v = Violation(self.prop, clause, what, replay)
@@ -192,10 +203,14 @@ def finish(rep: Report) -> int:
     EVID.mkdir(exist_ok=True)
     rdir = REPLAYS / rep.prop
     rdir.mkdir(parents=True, exist_ok=True)
-    for old in rdir.glob("viol_*.json"):
+    for old in list(rdir.glob("viol_*.json")) + list(rdir.glob("note_*.json")):
         old.unlink()
     for k in rep.known:
         print(f"KNOWN-FINDING: property={rep.prop} {k['id']}: {k['what']} (x{k['count']})")
+    for i, u in enumerate(rep.notes[:10]):
+        path = rdir / f"note_{i:03d}.json"
+        path.write_text(json.dumps(_jsonable(dict(property=None, clause=u["clause"], what=u["what"], scenario=u["replay"])), indent=1))
+        print(f"SPEC-NOTE: beyond the listed properties, replay={path}  [{u['clause']}] {u['what']} (x{u['count']})")
     shown = 0
     for i, v in enumerate(rep.violations):
         if i < 25:
@@ -219,6 +234,8 @@ def finish(rep: Report) -> int:
         actions_covered=rep.actions_covered,
         known_findings=[k["id"] for k in rep.known],
         self_tests=rep.self_tests,
+        beyond_property=dict(facts_compared=int(rep.x_facts),
+                             divergences=[dict(clause=u["clause"], what=u["what"], count=u["count"]) for u in rep.notes]),
     )
     for k, v in rep.extra.items():
         cov.setdefault(k, _jsonable(v))
